@@ -38,7 +38,7 @@ Clauses(o, ev, o2) ==
       [] ev.e = "spin" -> <<F("spinning", "")>>
       [] ev.e = "quiescent" ->
             LET Live(a) == /\ Req(o, a).known /\ Req(o, a).ver = "2" /\ ~Req(o, a).rst /\ App(o, a).rstart
-                           /\ App(o, a).sendExc = 0 /\ App(o, a).disc = 0 /\ Wire(o, a).rst = 0
+                           /\ App(o, a).sendExc = 0 /\ ~App(o, a).discEarly /\ Wire(o, a).rst = 0
                            /\ Connected(o) /\ ~o.paused /\ ~o.illegal /\ o.goaway = 0
                 Stalled(a) == Live(a) /\ Wire(o, a).got < ExpLen(o, a) /\ SWin(o, a) > 0 /\ o.cwin > 0
                 NoEnd(a) == Live(a) /\ App(o, a).final /\ ~App(o, a).trailersFlag /\ Wire(o, a).got = ExpLen(o, a)
